@@ -174,8 +174,9 @@ class StreamEquality(Leg):
     case_type = "bool"
     rule = ("opcode stream of nrpickler.dumps compared with recursive dill.dumps (recursion limit raised) modulo FRAME, protocols 0-5, "
             "on the same random graphs (incl. 70 kB string attributes that take pickle's large-object write path)")
-    quick_n = 60
+    quick_n = 36
     thorough_n = 1200
+    extended_factor = 3
 
     def generate(self, rng, n):
         for _ in range(n):
@@ -215,14 +216,14 @@ class Depth(Leg):
     checkfn = "(fun b : bool => b)"
     case_type = "bool"
     exhaustive = False
-    rule = ("chains of 50 .. 20000 vertices pickled in a subprocess whose recursion limit is 400: nrpickler.dumps must succeed and "
+    rule = ("chains of 50 .. 6000 (thorough: 20000) vertices pickled in a subprocess whose recursion limit is 400: nrpickler.dumps must succeed and "
             "round-trip, and the maximal Python stack depth reached inside dumps must not grow with the chain length")
     quick_n = 3
     thorough_n = 6
     extended_factor = 1
 
     def generate(self, rng, n):
-        for length in [50, 2000, 20000, 500, 5000, 10000][:n]:
+        for length in [50, 1000, 6000, 500, 20000, 10000][:n]:
             yield {"length": length}
 
     def observe(self, case):
